@@ -99,3 +99,7 @@ impl CacheMemoryTracker {
             <= self.limit_bytes
     }
 }
+
+#[cfg(kani)]
+#[path = "/verif/harness/server/hooks/memory_tracker.rs"]
+pub(crate) mod verif_hook;
